@@ -583,6 +583,13 @@ func (s *Session) hostInfoFromMap(row map[string]interface{}, host *HostInfo) (*
 		// Not sure what the port field will be called until the JIRA issue is complete
 	}
 
+	host.mu.RLock()
+	addr, _ := host.connectAddressLocked()
+	host.mu.RUnlock()
+	if !validIpAddr(addr) {
+		return nil, fmt.Errorf("no valid connect address in the row of host %q", host.hostId)
+	}
+
 	ip, port := s.cfg.translateAddressPort(host.ConnectAddress(), host.port)
 	host.connectAddress = ip
 	host.port = port
